@@ -6,7 +6,7 @@ package packer
 // ghostint(p, "fields") counts the fields appended so far (a ghost: no code reads it).
 
 //@ func NewPacker(AesKey []byte, AesIV []byte) (p *Packer)
-//@   ensures new: p != nil && fresh(p) && len(p.data) == 0 && p.size == 0 && sameslice(p.AesKey, AesKey) && sameslice(p.AesIV, AesIV)
+//@   ensures new: p != nil && fresh(p) && len(p.data) == 0 && cap(p.data) == 0 && p.size == 0 && sameslice(p.AesKey, AesKey) && sameslice(p.AesIV, AesIV)
 //@   ghost-def ghostint(p, "fields") = 0
 
 //@ func (p *Packer) AddInt(data int)
@@ -14,6 +14,7 @@ package packer
 //@   modifies p.data, p.size, elems(p.data)
 //@   ensures bytes: p.data == cat(old(p.data), le32(data))
 //@   ensures size:  p.size == old(p.size) + 4
+//@   ensures own:   (samearray(p.data, old(p.data)) && cap(old(p.data)) > 0) || fresh(arrayof(p.data))
 //@   ghost-def ghostint(p, "fields") = old(ghostint(p, "fields")) + 1
 
 //@ func (p *Packer) AddInt32(data int32)
@@ -21,6 +22,7 @@ package packer
 //@   modifies p.data, p.size, elems(p.data)
 //@   ensures bytes: p.data == cat(old(p.data), le32(data))
 //@   ensures size:  p.size == old(p.size) + 4
+//@   ensures own:   (samearray(p.data, old(p.data)) && cap(old(p.data)) > 0) || fresh(arrayof(p.data))
 //@   ghost-def ghostint(p, "fields") = old(ghostint(p, "fields")) + 1
 
 //@ func (p *Packer) AddUInt32(data uint32)
@@ -28,6 +30,7 @@ package packer
 //@   modifies p.data, p.size, elems(p.data)
 //@   ensures bytes: p.data == cat(old(p.data), le32(data))
 //@   ensures size:  p.size == old(p.size) + 4
+//@   ensures own:   (samearray(p.data, old(p.data)) && cap(old(p.data)) > 0) || fresh(arrayof(p.data))
 //@   ghost-def ghostint(p, "fields") = old(ghostint(p, "fields")) + 1
 
 //@ func (p *Packer) AddInt64(data int64)
@@ -35,6 +38,7 @@ package packer
 //@   modifies p.data, p.size, elems(p.data)
 //@   ensures bytes: p.data == cat(old(p.data), le64(data))
 //@   ensures size:  p.size == old(p.size) + 8
+//@   ensures own:   (samearray(p.data, old(p.data)) && cap(old(p.data)) > 0) || fresh(arrayof(p.data))
 //@   ghost-def ghostint(p, "fields") = old(ghostint(p, "fields")) + 1
 
 //@ func (p *Packer) AddBytes(data []byte)
@@ -43,6 +47,7 @@ package packer
 //@   modifies p.data, p.size, elems(p.data)
 //@   ensures bytes: p.data == cat(old(p.data), le32(len(data)), old(data))
 //@   ensures size:  p.size == old(p.size) + 4 + len(data)
+//@   ensures own:   (samearray(p.data, old(p.data)) && cap(old(p.data)) > 0) || fresh(arrayof(p.data))
 //@   ghost-def ghostint(p, "fields") = old(ghostint(p, "fields")) + 1
 
 //@ func (p *Packer) AddWString(data string)
